@@ -6,7 +6,12 @@ rows, reject = [], []
 for f in sorted(glob.glob("/verif/seeded/*/meta.json")):
     m = json.load(open(f))
     d = os.path.dirname(f)
-    suite = m["repo_suite_with_change"]
+    # later rounds: staged first, confirmed by seed_recheck.sh (demo, check) and seed_group_suite.sh (suite)
+    for k in ("demo_exit_with_change", "demo_exit_without_change", "check_exit", "check_signatures"):
+        if k not in m and "recheck" in m:
+            m[k] = m["recheck"].get(k)
+    m.setdefault("compiles", True)
+    suite = m.get("repo_suite_with_change", "FAILING WITH THE CHANGE: ? (suite not run)")
     failing = re.search(r"FAILING WITH THE CHANGE: (\[.*\])", suite)
     failing = failing.group(1) if failing else "?"
     ok = m["compiles"] and m["demo_exit_with_change"] == 1 and m["demo_exit_without_change"] == 0 and failing == "[]"
